@@ -82,13 +82,21 @@ func (c *NoiseGrpcConn) Read(b []byte) (n int, err error) {
 	c.nextMsgMtx.Lock()
 	defer c.nextMsgMtx.Unlock()
 
-	// The last read was incomplete, return the few bytes that didn't fit.
-	if len(c.nextMsg) > 0 {
-		msgLen := len(c.nextMsg)
-		copy(b, c.nextMsg)
+	// We cannot give the gRPC layer above us more than the default read
+	// buffer size of 32k bytes at a time, and never more than fits into
+	// the buffer we were given.
+	maxLen := len(b)
+	if maxLen > defaultGrpcWriteBufSize {
+		maxLen = defaultGrpcWriteBufSize
+	}
 
-		c.nextMsg = nil
-		return msgLen, nil
+	// The last read was incomplete, return the bytes that didn't fit. If
+	// they still don't fit, we keep the rest for the next read.
+	if len(c.nextMsg) > 0 {
+		n = copy(b[:maxLen], c.nextMsg)
+		c.nextMsg = c.nextMsg[n:]
+
+		return n, nil
 	}
 
 	requestBytes, err := c.noise.ReadMessage(c.ProxyConn)
@@ -96,21 +104,14 @@ func (c *NoiseGrpcConn) Read(b []byte) (n int, err error) {
 		return 0, fmt.Errorf("error decrypting payload: %v", err)
 	}
 
-	// Do we need to read this message in two parts? We cannot give the
-	// gRPC layer above us more than the default read buffer size of 32k
-	// bytes at a time.
-	if len(requestBytes) > defaultGrpcWriteBufSize {
-		nextMsgLen := len(requestBytes) - defaultGrpcWriteBufSize
-		c.nextMsg = make([]byte, nextMsgLen)
-
-		copy(c.nextMsg[0:nextMsgLen], requestBytes[defaultGrpcWriteBufSize:])
-
-		copy(b, requestBytes[0:defaultGrpcWriteBufSize])
-		return defaultGrpcWriteBufSize, nil
+	// Hand out as much of the message as we are allowed to and keep the
+	// remainder for the following reads.
+	n = copy(b[:maxLen], requestBytes)
+	if n < len(requestBytes) {
+		c.nextMsg = requestBytes[n:]
 	}
 
-	copy(b, requestBytes)
-	return len(requestBytes), nil
+	return n, nil
 }
 
 // Write encrypts the given application level payload and sends it as a data
